@@ -216,4 +216,11 @@ theorem maxDiff_eq_vnorm (n : Nat) [Nonempty (Fin n)] (a b : List α) (ha : a.le
   have hi : i.val < (vsub a b).length := by rw [hl]; exact i.isLt
   simp [List.getD_eq_getElem?_getD, List.getElem?_eq_getElem hi, absv_eq_abs]
 
+/-- well-formed state index: `state_to_index(state_i) = i` -/
+def IdxWF (P : Problem α) : Prop := ∀ s, s < P.nS → P.sidx s = (s : Int)
+
+theorem clampIdx_cast (n s : Nat) (h : s < n) : clampIdx n (s : Int) = s := by
+  unfold clampIdx; simp only []
+  split <;> split <;> (try split) <;> omega
+
 end MdpaxV
